@@ -34,7 +34,7 @@ PROP = {
         ("TestVFC09History", (400, 1500), {"steps": 40}),
         ("TestVFC09Concurrent", (120, 500)),
         ("TestVFC09ResetVsFlush", (400, 3000)),
-        ("TestVFC09ResetAcrossHourStep", (300, 2000)),
+        ("TestVFC09ResetAcrossHourStep", (100, 1000)),
         ("TestVFC09CloseVsFlush", (100, 150)),
     ],
     "plain": ["TestVFC09Scenarios"],
